@@ -363,11 +363,17 @@ def _simplify_events(events, hedger_id):
             out.append((k, e[1]))
         elif k == 'backward':
             out.append(('backward',))
+        elif k == 'ensemble':
+            out.append(('ensemble', e[1]))
     return out
 
 
 def fit_epoch_ob(validation, n_times):
-    tag = 'validation=%s,n_times=%d' % (validation, n_times)
+    # n_times = 'all': symbolic n_times, with ensemble_mean replaced by its contract (TR/ensemble_mean/loop[all n_times]):
+    # a ghost event ('ensemble', n_times) followed by ONE arbitrary call of the function handed over
+    sym_nt = n_times == 'all'
+    tag = 'validation=%s,n_times=%s' % (validation, 'every n_times (ensemble_mean by contract)' if sym_nt else '%d' % n_times)
+    NT = tm.var('n_times', 'I')
 
     def check():
         t0 = time.time()
@@ -375,13 +381,21 @@ def fit_epoch_ob(validation, n_times):
         import pfhedge.nn as pnn
         from pfhedge.nn.modules.hedger import Hedger
         Tc = 3
-        hyps = H.DIMS + [tm.ge(NP, tm.IONE), tm.ge(NE, tm.IZERO), tm.gt(tm.var('M'), tm.ZERO)]
+        hyps = H.DIMS + [tm.ge(NP, tm.IONE), tm.ge(NE, tm.IZERO), tm.gt(tm.var('M'), tm.ZERO), tm.ge(NT, tm.IONE)]
         holder = {}
+        import pfhedge.nn.modules.hedger as hm
+        real_em = hm.ensemble_mean
+
+        def em_contract(function, n_times=1, *args, **kwargs):
+            ctx().event('ensemble', lift(n_times))
+            return function(*args, **kwargs)
 
         def inv(state, state0):
             return tm.TRUE
         cutfit, info = cutloops.cut(Hedger.fit, {0: cutloops.LoopSpec(inv, name='for _ in progress')})
         old = H._set_T(Tc)
+        if sym_nt:
+            hm.ensemble_mean = em_contract
         try:
             def run(c):
                 d = mk_sim_derivative(Tc)
@@ -389,12 +403,13 @@ def fit_epoch_ob(validation, n_times):
                 opt = torch.optim.Adam(hedger.model.parameters())
                 init = (SReal(tm.var('s0')),)
                 c.notes.append({'hedger': id(hedger), 'opt': id(opt), 'init': init})
-                return cutfit(hedger, d, n_epochs=SInt(NE), n_paths=SInt(NP), n_times=n_times, optimizer=opt, init_state=init, verbose=False, validation=validation)
+                return cutfit(hedger, d, n_epochs=SInt(NE), n_paths=SInt(NP), n_times=SInt(NT) if sym_nt else n_times, optimizer=opt, init_state=init, verbose=False, validation=validation)
             paths = explore(run, hyps, max_paths=16)
         except Unsupported as e:
             return Verdict('unknown', 'engine', time.time() - t0, 'out of reach: %s' % e)
         finally:
             H._set_T(old)
+            hm.ensemble_mean = real_em
         sample = {'claim': 'one arbitrary epoch appends exactly the documented event sequence; the loop runs range(n_epochs)', 'scenario': tag, 'rewritten': info['rewritten'][:1500]}
         seen_iter = seen_exit = False
         for p in paths:
@@ -406,9 +421,16 @@ def fit_epoch_ob(validation, n_times):
                 evs = _simplify_events(p.events, ids['hedger'])
                 opt_id = ids['opt']
                 init = ids['init']
-                E = [('train',), ('zero_grad', opt_id), ('simulate', NP, init, True), ('criterion', True, True), ('backward',), ('step', opt_id)]
-                if validation:
-                    E += [('eval',)] + [('simulate', NP, init, False), ('criterion', False, False)] * n_times
+                if sym_nt:
+                    # one training evaluation (n_times = 1), then - by the contract of ensemble_mean - n_times validation evaluations, each like the one seen
+                    E = [('train',), ('zero_grad', opt_id), ('ensemble', tm.IONE), ('simulate', NP, init, True), ('criterion', True, True), ('backward',), ('step', opt_id)]
+                    if validation:
+                        E += [('eval',), ('ensemble', NT), ('simulate', NP, init, False), ('criterion', False, False)]
+                    evs = [(e[0], tm.as_term(e[1])) if e[0] == 'ensemble' else e for e in evs]
+                else:
+                    E = [('train',), ('zero_grad', opt_id), ('simulate', NP, init, True), ('criterion', True, True), ('backward',), ('step', opt_id)]
+                    if validation:
+                        E += [('eval',)] + [('simulate', NP, init, False), ('criterion', False, False)] * n_times
                 # drop events before the loop (none expected: optimizer instance passed in)
                 got = [e for e in evs]
                 sample['events'] = [str(e) for e in got][:14]
@@ -595,6 +617,13 @@ for k in (0, 1, 3):
                     ref.eval(); ref.compute_loss(d, n_paths=7, n_times=2, enable_grad=False)
             for a, b in zip(model.parameters(), ref_model.parameters()):
                 if not torch.allclose(a, b, atol=1e-7): bad.append((k, validation, pre_grad, "parameters differ from the explicit loop"))
+# a larger number of validation evaluations per epoch
+torch.manual_seed(31)
+d = EuropeanOption(BrownianStock(dt=0.01), maturity=0.04)
+crit = Crit()
+hedger = pnn.Hedger(torch.nn.Linear(2, 1), ["log_moneyness", "time_to_maturity"], criterion=crit)
+hist = hedger.fit(d, n_epochs=2, n_paths=5, n_times=9, optimizer=torch.optim.SGD, verbose=False)
+if crit.calls != ([(True, True, 5)] + [(False, False, 5)] * 9) * 2: bad.append(("n_times=9", "evaluations per epoch", [sum(1 for c_ in crit.calls if not c_[0]), len(crit.calls)]))
 # parameters that the supplied optimiser owns but that live outside hedger.model: a parametric criterion (OCE) and the module of a ModuleOutput feature
 from pfhedge.features import ModuleOutput
 for validation in (False, True):
@@ -654,6 +683,266 @@ def ensemble_mean_ob():
                       clause='ensemble_mean(f, n) calls f exactly n times and returns the mean of the results')
 
 
+def ensemble_mean_loop_ob(props=('C15',)):
+    """ensemble_mean for EVERY n_times: the comprehension `[function(*args, **kwargs) for _ in range(n_times)]` is desugared
+    mechanically into `pfv_lc1 = []; for _ in range(n_times): pfv_lc1.append(function(*args, **kwargs))` and the loop is cut.
+    function is opaque: its k-th call returns the row F[k, :] of an uninterpreted array (ghost call counter).
+    Invariant: len(list) == calls made == iterations done, and the list is [F[0], ..., F[i-1]] (the havocked list is
+    represented by exactly these rows, so the element clause is a proof obligation at init/preserve only)."""
+    def check():
+        t0 = time.time()
+        import torch
+        import pfhedge._utils.operations as opm
+        from pfv import cutloops
+        from pfv.torchlib.tensor import Tensor
+        NT, M_ = tm.var('n_times', 'I'), tm.var('M', 'I')
+        cell = {'k': 0, 'calls': [], 'argbad': [], 'ncalls_total': 0}
+        a1, k1 = object(), object()
+
+        def f(*a, **kw):
+            k = cell['k']
+            cell['calls'].append((a, kw))
+            if not (a == (a1,) and set(kw) == {'key'} and kw['key'] is k1):
+                cell['argbad'].append((len(a), sorted(kw)))          # kept across paths (the call inside the arbitrary iteration is on an aborted path)
+            cell['k'] = k + 1
+            kt = tm.as_term(lift(k))
+            return Tensor.fresh(lambda idx: tm.sel('F', kt, *idx), (SInt(M_),), torch.float64)
+
+        def havoc_list(old, c):
+            L = SInt(c.fresh('hvL', 'I'))
+            return cutloops.SymStack(Tensor.fresh(lambda idx: tm.sel('F', idx[0], idx[1]), (L, SInt(M_)), torch.float64), L)
+
+        LOOPVAR = ['_']
+
+        def heap_havoc(state):
+            cell['k'] = state[LOOPVAR[0]]     # ghost call counter at the head of an arbitrary iteration (tied to the loop counter by the invariant)
+
+        grown = [nm for (k_, nm) in cutloops.appended_names(opm.ensemble_mean) if k_ == 0]
+        if len(grown) != 1:
+            return Verdict('unknown', 'engine', time.time() - t0, 'the repeated evaluation is not a comprehension / loop growing one list: %s' % grown)
+        LST = grown[0]
+
+        def inv(state, state0):
+            loopvar = [v_ for k_, v_ in state.items() if k_ == LOOPVAR[0]][0]
+            lst, i = state[LST], lift(loopvar)
+            rows = [('len(list) == iterations done', tm.eq(cutloops.list_len(lst), i)),
+                    ('ghost: calls made == iterations done', tm.eq(tm.as_term(lift(cell['k'])), i))]
+            if isinstance(lst, cutloops.SymStack):
+                k, j = tm.fresh('ik', 'I'), tm.fresh('ij', 'I')
+                rows.append(('element k of the list is the result of call k', tm.forall(k, tm.IZERO, i, tm.forall(j, tm.IZERO, M_, tm.eq(lst.elem(k, (j,)), tm.sel('F', k, j))))))
+            return rows
+        try:
+            LOOPVAR[0] = cutloops.loop_var(opm.ensemble_mean, 0)
+            cut, info = cutloops.cut(opm.ensemble_mean, {0: cutloops.LoopSpec(inv, name='for (repeated evaluation)', havoc={LST: havoc_list}, heap_havoc=heap_havoc)})
+        except Exception as e:
+            return Verdict('unknown', 'engine', time.time() - t0, 'loop cut not applicable: %s' % str(e)[:300])
+        hyps = [tm.ge(NT, tm.IONE), tm.ge(M_, tm.IONE)]
+
+        def run(c):
+            cell['k'] = 0
+            del cell['calls'][:]
+            r = cut(f, SInt(NT), a1, key=k1)
+            return r, list(cell['calls']), cell['k']
+        try:
+            paths = explore(run, hyps, max_paths=16)
+        except Unsupported as e:
+            return Verdict('unknown', 'engine', time.time() - t0, 'out of reach: %s' % e)
+        rows = []
+        seen = set()
+        sample = {'claim': 'ensemble_mean(f, n, *args, **kwargs) == (1/n) sum_k f_k(*args, **kwargs), f called exactly n times, for every n >= 1', 'rewritten': info['rewritten'][-900:]}
+        j = tm.var('j', 'I')
+        for p in paths:
+            for so in p.side:
+                r = smt.prove(so['hyps'], so['goal'], timeout_ms=30000)
+                rows.append(('%s: %s' % (so['kind'], so['name']), {'unsat': 'proved', 'sat': 'refuted' if so['kind'] in ('inv-init', 'inv-preserve') else 'unknown'}.get(r.status, 'unknown'), tm.show(so['goal'])[:200] if r.status != 'unsat' else ''))
+            if p.aborted is not None and p.aborted.kind == 'loop-cut':
+                seen.add('iteration')
+                continue
+            if p.outcome() != 'returns':
+                return Verdict('unknown', 'engine', time.time() - t0, str((p.outcome(), str(p.exception)[:200], p.traceback[-400:])), sample=sample)
+            res, calls, kfin = p.result
+            facts = p.facts(hyps) + [tm.le(tm.IZERO, j), tm.lt(j, M_)]
+            single = smt.prove(p.facts(hyps), tm.eq(NT, tm.IONE), timeout_ms=5000).status == 'unsat'
+            if single:
+                seen.add('n=1')
+                ok = len(calls) == 1 and fc.prove_eq(facts, res.at((j,)), tm.sel('F', tm.IZERO, j), timeout_ms=10000).status == 'unsat'
+                rows.append(('n_times == 1: one call, its value returned', 'proved' if ok else 'refuted', '%d call(s), value %s' % (len(calls), tm.show(res.at((j,)))[:120])))
+            else:
+                seen.add('exit')
+                k = tm.fresh('k', 'I')
+                want = tm.div(tm.tsum(k, tm.IZERO, NT, tm.sel('F', k, j)), tm.toreal(NT))
+                r1 = smt.prove(p.facts(hyps), tm.eq(tm.as_term(lift(kfin)), NT), timeout_ms=10000)
+                rows.append(('exit: the function has been called exactly n_times times', {'unsat': 'proved', 'sat': 'refuted'}.get(r1.status, 'unknown'), ''))
+                r2 = fc.prove_eq(facts, res.at((j,)), want, timeout_ms=30000)
+                rows.append(('exit: result == (1/n_times) sum_k F[k]', {'unsat': 'proved', 'sat': 'refuted'}.get(r2.status, 'unknown'), tm.show(res.at((j,)))[:200] if r2.status != 'unsat' else ''))
+        if seen != {'iteration', 'n=1', 'exit'}:
+            return Verdict('unknown', 'engine', time.time() - t0, 'paths seen: %s' % sorted(seen), sample=sample)
+        rows.append(('every call (n_times = 1 and inside the arbitrary iteration) passes on *args and **kwargs unchanged', 'refuted' if cell['argbad'] else 'proved', str(cell['argbad'][:2]) if cell['argbad'] else ''))
+        bad = [r for r in rows if r[1] == 'refuted']
+        unk = [r for r in rows if r[1] == 'unknown']
+        sample['vcs'] = [{'vc': r[0], 'status': r[1]} for r in rows]
+        if bad:
+            return Verdict('refuted', 'z3 (loop invariant) + ghost call counter', time.time() - t0, '; '.join('%s %s' % (r[0], r[2]) for r in bad)[:600], witness={'failed': [r[0] for r in bad]}, sample=sample, replay=_replay_ensemble())
+        if unk:
+            return Verdict('unknown', 'z3', time.time() - t0, '; '.join('%s %s' % (r[0], r[2]) for r in unk)[:600], sample=sample)
+        return Verdict('proved', 'z3 (loop invariant) + ghost call counter', time.time() - t0, '%d VCs' % len(rows), sample=sample)
+    return Obligation('TR/ensemble_mean/loop[all n_times]', 'inv-init/inv-preserve/post', 'pfhedge._utils.operations.ensemble_mean', check, list(props),
+                      clause='for EVERY n_times >= 1: ensemble_mean(f, n_times, *args, **kwargs) calls f(*args, **kwargs) exactly n_times times and returns the mean of the results (the value itself for n_times = 1)')
+
+
+def n_times_wiring_ob(which):
+    """modular step from `ensemble_mean` (contract TR/ensemble_mean/loop, every n) to a caller: compute_loss / price hand
+    ensemble_mean the caller's n_times unchanged and a function whose every call is one fresh simulate + one evaluation."""
+    prop = 'C15' if which == 'compute_loss' else 'C06'
+
+    def check():
+        t0 = time.time()
+        import torch
+        import pfhedge.nn as pnn
+        import pfhedge.nn.modules.hedger as hm
+        from pfhedge.nn.modules.loss import HedgeLoss
+        from pfv.torchlib.tensor import Tensor
+        NT = tm.var('n_times', 'I')
+        Tc = 3
+        old = H._set_T(Tc)
+        real_em = hm.ensemble_mean
+        seen = {}
+
+        def cells(fn):
+            out = []
+            for cl in (getattr(fn, '__closure__', None) or ()):
+                try:
+                    v = cl.cell_contents
+                except ValueError:
+                    continue
+                out.append((id(v), len(v) if isinstance(v, (list, dict, set)) else None))
+            return out
+
+        def stub(function, n_times=1, *args, **kwargs):
+            c = ctx()
+            seen['n_times'] = n_times
+            seen['extra'] = (args, kwargs)
+            marks = [len(c.events)]
+            before = cells(function)
+            out = None
+            for _k in range(2):              # two calls of the function handed over: each must be one fresh simulate + one evaluation
+                out = function(*args, **kwargs)
+                marks.append(len(c.events))
+            seen['marks'] = marks
+            seen['stateless'] = cells(function) == before      # the function keeps no call-count state in its closure (lists / re-bound cells)
+            return out
+
+        class CashCrit(HedgeLoss):
+            def forward(self, input, target=0.0):
+                raise AssertionError('price must use cash()')
+
+            def cash(self, input, target=0.0):
+                c = ctx()
+                c.event('criterion', 'cash', c.grad_enabled)
+                return Tensor.input('cash%d' % len(c.events), (), torch.float64, origin='fresh')
+        rows = []
+        hm.ensemble_mean = stub
+        try:
+            for eg in ((True, False) if which == 'compute_loss' else (False,)):
+                def run(c):
+                    seen.clear()
+                    d = mk_sim_derivative(Tc)
+                    crit = RecCriterion.make() if which == 'compute_loss' else CashCrit()
+                    hedger = pnn.Hedger(H.UserModel.make(1), ['log_moneyness', 'time_to_maturity'], criterion=crit)
+                    init = (SReal(tm.var('s0')),)
+                    if which == 'compute_loss':
+                        hedger.compute_loss(d, n_paths=SInt(NP), n_times=SInt(NT), init_state=init, enable_grad=eg)
+                    else:
+                        hedger.price(d, n_paths=SInt(NP), n_times=SInt(NT), init_state=init)
+                    return dict(seen), [e for e in c.events], init, id(hedger)
+                hy = H.DIMS + [tm.ge(NP, tm.IONE), tm.ge(NT, tm.IONE), tm.gt(tm.var('M'), tm.ZERO)]
+                paths = explore(run, hy, max_paths=8)
+                if not paths or any(p.outcome() != 'returns' for p in paths):
+                    return Verdict('unknown', 'engine', time.time() - t0, str([(p.outcome(), str(p.exception)[:200], p.traceback[-500:]) for p in paths]))
+                tag = '%s(enable_grad=%s)' % (which, eg) if which == 'compute_loss' else which
+                for p in paths:
+                    sn, evs, init, hid = p.result
+                    if 'n_times' not in sn:
+                        rows.append((tag + ': the repeated evaluation goes through ensemble_mean', 'unknown', 'ensemble_mean was not called'))
+                        continue
+                    r = smt.prove(p.facts(hy), tm.eq(tm.as_term(lift(sn['n_times'])), NT), timeout_ms=10000)
+                    rows.append((tag + ': ensemble_mean receives the caller\'s n_times', {'unsat': 'proved', 'sat': 'refuted'}.get(r.status, 'unknown'), 'passes %s' % tm.show(tm.as_term(lift(sn['n_times'])))[:100] if r.status != 'unsat' else ''))
+                    rows.append((tag + ': no further arguments', 'proved' if sn['extra'] == ((), {}) else 'refuted', ''))
+                    m = sn['marks']
+                    per_call = [_simplify_events(evs[m[k_]:m[k_ + 1]], hid) for k_ in range(2)]
+                    want = [('simulate', NP, init, eg), ('criterion', True if which == 'compute_loss' else 'cash', eg)]
+                    ok = all(pc == want for pc in per_call)
+                    rows.append((tag + ': every call of the function is one fresh simulate(n_paths, init_state) + one evaluation under the requested grad mode', 'proved' if ok else 'refuted', str(per_call)[:300] if not ok else ''))
+                    rows.append((tag + ': the function keeps no state between calls (closure unchanged), so the two calls seen stand for every call', 'proved' if sn['stateless'] else 'unknown', '' if sn['stateless'] else 'the closure of the function changed between calls'))
+        finally:
+            hm.ensemble_mean = real_em
+            H._set_T(old)
+        bad = [r for r in rows if r[1] == 'refuted']
+        unk = [r for r in rows if r[1] == 'unknown']
+        sample = {'claim': '%s passes n_times through to ensemble_mean (symbolic n_times)' % which, 'vcs': [{'vc': r[0], 'status': r[1]} for r in rows]}
+        if bad:
+            return Verdict('refuted', 'ghost event trace + z3', time.time() - t0, '; '.join('%s %s' % (r[0], r[2]) for r in bad)[:600], witness={'failed': [r[0] for r in bad]}, sample=sample, replay=_replay_ntimes())
+        if unk:
+            return Verdict('unknown', 'ghost event trace + z3', time.time() - t0, '; '.join('%s %s' % (r[0], r[2]) for r in unk)[:600], sample=sample)
+        return Verdict('proved', 'ghost event trace + z3', time.time() - t0, '%d VCs' % len(rows), sample=sample)
+    return Obligation('TR/%s/pre@callsite[ensemble_mean,every n_times]' % which, 'pre@callsite', 'pfhedge.nn.modules.hedger.Hedger.%s' % which, check, [prop],
+                      clause='%s calls ensemble_mean(function, n_times = the caller\'s n_times) where each call of function is one fresh simulate(n_paths, init_state) and one evaluation without state between calls; with the contract of ensemble_mean this gives the protocol for every n_times' % which)
+
+
+NTIMES_REPLAY = '''
+import pfhedge.nn as pnn
+from pfhedge.instruments import BrownianStock, EuropeanOption
+bad = []
+class Crit(pnn.EntropicRiskMeasure):
+    calls = 0; inside = False
+    def forward(self, input, target=0.0):
+        if not Crit.inside: Crit.calls += 1
+        return super().forward(input, target)
+    def cash(self, input, target=0.0):
+        Crit.calls += 1; Crit.inside = True
+        try: return super().cash(input, target)
+        finally: Crit.inside = False
+class Stock(BrownianStock):
+    sims = 0
+    def simulate(self, *a, **k): Stock.sims += 1; return super().simulate(*a, **k)
+for n in (1, 2, 5, 6, 7, 11, 12, 20):
+    d = EuropeanOption(Stock(dt=0.01), maturity=0.03)
+    hedger = pnn.Hedger(pnn.Naked(), ["log_moneyness"], criterion=Crit())
+    for which in ("compute_loss", "price"):
+        Crit.calls = 0; Stock.sims = 0
+        getattr(hedger, which)(d, n_paths=3, n_times=n)
+        if Crit.calls != n or Stock.sims != n: bad.append((which, "n_times=%d" % n, "%d evaluation(s), %d simulation(s)" % (Crit.calls, Stock.sims)))
+result = {"got": [str(b) for b in bad][:8], "ref": []}
+'''
+
+
+def _replay_ntimes():
+    r = real_exec(NTIMES_REPLAY, {}, timeout=300)
+    ok = r.get('ok') and r['result']['got'] == []
+    return {'real': r, 'confirmed': not ok, 'note': 'replay: real compute_loss / price with n_times in {1,2,5,6,7,11,12,20}: number of simulations and criterion evaluations'}
+
+
+ENSEMBLE_REPLAY = '''
+from pfhedge._utils.operations import ensemble_mean
+bad = []
+for n in (1, 2, 3, 4, 5, 7, 8, 9, 16, 17, 33):
+    calls = []
+    def f(a, key=None):
+        calls.append((a, key)); return T([float(len(calls)), 2.0 * len(calls)])
+    out = ensemble_mean(f, n, "a", key="k")
+    want = T([(n + 1) / 2.0, float(n + 1)])
+    if len(calls) != n or any(c_ != ("a", "k") for c_ in calls): bad.append((n, "calls", len(calls)))
+    if tuple(out.shape) != (2,) or not torch.allclose(out, want, atol=1e-12): bad.append((n, "value", out.tolist(), want.tolist()))
+result = {"got": [str(b) for b in bad][:8], "ref": []}
+'''
+
+
+def _replay_ensemble():
+    r = real_exec(ENSEMBLE_REPLAY, {}, timeout=120)
+    ok = r.get('ok') and r['result']['got'] == []
+    return {'real': r, 'confirmed': not ok, 'note': 'replay: real ensemble_mean for n_times in {1,...,5,7,8,9,16,17,33}: call count, arguments, value'}
+
+
 def c15_obligations(seed, tier='quick'):
-    obs = [fit_epoch_ob(True, 1), fit_epoch_ob(True, 3), fit_epoch_ob(False, 1), fit_history_ob(), configure_optimizer_ob(), compute_loss_protocol_ob(), ensemble_mean_ob()]
+    obs = [fit_epoch_ob(True, 1), fit_epoch_ob(True, 3), fit_epoch_ob(False, 1), fit_epoch_ob(True, 'all'), fit_history_ob(), configure_optimizer_ob(), compute_loss_protocol_ob(), ensemble_mean_ob(), ensemble_mean_loop_ob(), n_times_wiring_ob('compute_loss')]
     return obs
